@@ -94,6 +94,9 @@ type c09Variant struct {
 	Dir      string // ingress | egress
 	FlowLogs bool
 	IPV      int
+	// Other: what every tier holds in the OPPOSITE direction (the endpoint's tiers are direction-asymmetric):
+	// "" nothing, "E" one enforced policy, "S" one staged policy. It must not influence the rendered direction.
+	Other string `json:",omitempty"`
 }
 
 type c09Detail struct {
@@ -199,6 +202,28 @@ func c09Build(c *vk.Ctx, l c09Layout, v c09Variant) (*c09Built, bool) {
 					tpg.IngressPolicies = append(tpg.IngressPolicies, grp)
 				} else {
 					tpg.EgressPolicies = append(tpg.EgressPolicies, grp)
+				}
+			}
+			if v.Other != "" {
+				oid := &types.PolicyID{Name: fmt.Sprintf("%s.other", tname), Kind: v3.KindGlobalNetworkPolicy}
+				if v.Other == "S" {
+					oid.Kind = v3.KindStagedGlobalNetworkPolicy
+				}
+				orules := []*proto.Rule{{Action: "allow", DstIpSetIds: []string{"other"}}}
+				opol := &proto.Policy{Tier: tname, Untracked: untracked, PreDnat: preDNAT}
+				odir := rules.PolicyDirectionInbound
+				if ingress {
+					opol.OutboundRules = orules
+					odir = rules.PolicyDirectionOutbound
+				} else {
+					opol.InboundRules = orules
+				}
+				b.Table().UpdateChains(rr.PolicyToIptablesChains(oid, opol, uint8(v.IPV)))
+				ogrp := &rules.PolicyGroup{Direction: odir, Selector: fmt.Sprintf("sel-%d-other", ti), Policies: []*types.PolicyID{oid}}
+				if ingress {
+					tpg.EgressPolicies = append(tpg.EgressPolicies, ogrp)
+				} else {
+					tpg.IngressPolicies = append(tpg.IngressPolicies, ogrp)
 				}
 			}
 			tiers = append(tiers, tpg)
@@ -375,6 +400,9 @@ func c09Run(c *vk.Ctx, l c09Layout, v c09Variant, st *c09Stats) bool {
 			if staged {
 				key += ":staged"
 			}
+			if v.Other != "" {
+				key += ":other-direction-" + v.Other
+			}
 			c.Violation(key, c09Detail{Layout: l, Variant: v, Bits: bits, Mark: mk, Ref: fmt.Sprintf("%+v", want), Got: got + " (" + res.Verdict + fmt.Sprintf(" mark=%#x)", res.Mark), Trace: resT.Trace, Rendered: bt.b.Lines()})
 		}
 	}
@@ -500,7 +528,7 @@ func TestVerif_C09(t *testing.T) {
 		}
 		c.Rule("states = (layout, dataplane, endpoint chain type, direction, flow logs, IP version) rendered by the real code; a layout = <=3 tiers x policies " +
 			"(enforced/staged, allow/deny/pass/no-rules and two-rule policies) x every split of each tier into consecutive policy groups (inline or own chain) x tier default action x 0-2 profiles, " +
-			"bounded by the total number of policies; plus the stride family (one group of 1..11 policies with staged ones interleaved); transitions = packets executed by nfsim: every assignment of " +
+			"bounded by the total number of policies; direction-asymmetric variants put one enforced / one staged policy into every tier's opposite direction; plus the stride family (one group of 1..11 policies with staged ones interleaved); transitions = packets executed by nfsim: every assignment of " +
 			"the per-policy/per-profile match bits x 4 initial marks with garbage in the accept/pass/scratch bits; non-trivial = layouts with >= 2 policies")
 		c.Assume("each policy/profile rule matches on its own abstract IP-set membership bit (rule match rendering itself is C08's subject); conntrack state NEW")
 		c.Assume("host forward / untracked / pre-DNAT chains: only the clauses of the statement that these chain types implement are compared (rule-decided verdicts; end-of-tier deny for forward chains); the rest is counted as unconstrained")
@@ -532,19 +560,24 @@ func TestVerif_C09(t *testing.T) {
 			var vs []c09Variant
 			for _, kd := range []string{"ipt", "nft"} {
 				if n <= nMain {
-					vs = append(vs, c09Variant{kd, "workload", "ingress", false, 4})
+					vs = append(vs, c09Variant{Kind: kd, EP: "workload", Dir: "ingress", FlowLogs: false, IPV: 4})
 				}
 				if n <= nSide {
-					vs = append(vs, c09Variant{kd, "workload", "egress", false, 4})
+					vs = append(vs, c09Variant{Kind: kd, EP: "workload", Dir: "egress", FlowLogs: false, IPV: 4})
 				}
 				if n <= nSide {
 					vs = append(vs,
-						c09Variant{kd, "workload", "ingress", true, 4}, c09Variant{kd, "workload", "egress", true, 4},
-						c09Variant{kd, "workload", "ingress", false, 6},
-						c09Variant{kd, "host", "ingress", false, 4}, c09Variant{kd, "host", "egress", true, 4},
-						c09Variant{kd, "host-forward", "ingress", false, 4}, c09Variant{kd, "host-forward", "egress", true, 4},
-						c09Variant{kd, "host-untracked", "ingress", false, 4}, c09Variant{kd, "host-untracked", "egress", false, 4},
-						c09Variant{kd, "host-prednat", "ingress", false, 4})
+						c09Variant{Kind: kd, EP: "workload", Dir: "ingress", FlowLogs: true, IPV: 4}, c09Variant{Kind: kd, EP: "workload", Dir: "egress", FlowLogs: true, IPV: 4},
+						c09Variant{Kind: kd, EP: "workload", Dir: "ingress", FlowLogs: false, IPV: 6},
+						c09Variant{Kind: kd, EP: "host", Dir: "ingress", FlowLogs: false, IPV: 4}, c09Variant{Kind: kd, EP: "host", Dir: "egress", FlowLogs: true, IPV: 4},
+						c09Variant{Kind: kd, EP: "host-forward", Dir: "ingress", FlowLogs: false, IPV: 4}, c09Variant{Kind: kd, EP: "host-forward", Dir: "egress", FlowLogs: true, IPV: 4},
+						c09Variant{Kind: kd, EP: "host-untracked", Dir: "ingress", FlowLogs: false, IPV: 4}, c09Variant{Kind: kd, EP: "host-untracked", Dir: "egress", FlowLogs: false, IPV: 4},
+						c09Variant{Kind: kd, EP: "host-prednat", Dir: "ingress", FlowLogs: false, IPV: 4},
+						// direction-asymmetric tiers: the opposite direction holds an enforced / a staged policy
+						c09Variant{Kind: kd, EP: "workload", Dir: "ingress", IPV: 4, Other: "E"}, c09Variant{Kind: kd, EP: "workload", Dir: "egress", IPV: 4, Other: "E"},
+						c09Variant{Kind: kd, EP: "workload", Dir: "ingress", FlowLogs: true, IPV: 4, Other: "S"}, c09Variant{Kind: kd, EP: "workload", Dir: "egress", IPV: 4, Other: "S"},
+						c09Variant{Kind: kd, EP: "host", Dir: "ingress", IPV: 4, Other: "E"}, c09Variant{Kind: kd, EP: "host", Dir: "egress", IPV: 4, Other: "E"},
+						c09Variant{Kind: kd, EP: "host-forward", Dir: "ingress", IPV: 4, Other: "E"}, c09Variant{Kind: kd, EP: "host-forward", Dir: "egress", IPV: 4, Other: "S"})
 				}
 			}
 			return vs
@@ -571,7 +604,7 @@ func TestVerif_C09(t *testing.T) {
 			nStride++
 			var vs []c09Variant
 			for _, kd := range []string{"ipt", "nft"} {
-				vs = append(vs, c09Variant{kd, "workload", "ingress", false, 4}, c09Variant{kd, "workload", "egress", true, 4}, c09Variant{kd, "host-forward", "ingress", false, 4})
+				vs = append(vs, c09Variant{Kind: kd, EP: "workload", Dir: "ingress", FlowLogs: false, IPV: 4}, c09Variant{Kind: kd, EP: "workload", Dir: "egress", FlowLogs: true, IPV: 4}, c09Variant{Kind: kd, EP: "host-forward", Dir: "ingress", FlowLogs: false, IPV: 4})
 			}
 			jobs = append(jobs, job{l, vs})
 			c.Nontrivial(l.sig())
